@@ -203,8 +203,13 @@ def fam_preprocess(ctx, rng):
     target = None if rng.random() < 0.2 else float(rng.choice([0.0, 90.0, 33.0, float(rng.uniform(-360, 720))]))
     L = None if rng.random() < 0.15 else float(rng.choice([1.0, 2.0, 3.0, 5.0, 7.5, 10.0]))
     items = []
+    _, long_record = gen.maybe_large(rng, ctx, 0, [1], p_quick=0.006, p_thorough=0.006)        # hours of data, slow filter corners
+    if long_record:
+        nrec = 1
+        corners = [(0.05 * fs / 100, fs / 4), (0.1 * fs / 100, None), (0.3, fs / 4)][int(rng.integers(0, 3))]
+        L = float(rng.choice([300.0, 600.0]))
     for _ in range(nrec):
-        n = int(rng.choice([600, 2000, 4501, 9000]))
+        n = int(rng.choice([600, 2000, 4501, 9000])) if not long_record else int(rng.choice([1_100_000, 1_300_001]))
         t = np.arange(n) * dt
         arrs = [gen.signal(rng, n) + rng.uniform(2, 20) * t / t[-1] * rng.choice([-1, 1]) + 3 * np.sin(2 * np.pi * 0.05 * t + rng.uniform(0, 6))
                 + rng.uniform(-5, 5) for _ in range(3)]
